@@ -54,7 +54,12 @@ func runC14(c *core.Ctx) {
 		mtu = []int{32770, 40000, 65535}[t.Intn(3)] // sizes at which 16-bit arithmetic on aggregation sizes would wrap
 		c.Probe("jumbo-mtu")
 	}
-	burst := t.Chance(1, 120) // hundreds of tiny units in one call (parameter sets, SEI, filler): counts beyond 8-bit fields
+	hugeCount := t.Chance(1, 1500) // one unit that needs more than 65535 fragments (1 byte per FU at the smallest MTU)
+	if hugeCount {
+		mtu = minMTU
+		c.Probe("unit-needing-more-than-65535-fragments")
+	}
+	burst := !hugeCount && t.Chance(1, 120) // hundreds of tiny units in one call (parameter sets, SEI, filler): counts beyond 8-bit fields
 	if burst {
 		mtu = 1600 + t.Intn(3000)
 		skipAgg = false
@@ -104,6 +109,17 @@ func runC14(c *core.Ctx) {
 			mtu = 6 + []int{8, 0, 1, 2, 4, 20, 40, 1194}[t.Intn(8)] + t.Intn(3) // the path MTU changed between calls
 		}
 		units := genH265Units(t, mtu)
+		if hugeCount && k == 0 {
+			per := mtu - 3
+			if sendDonl {
+				per -= 2
+			}
+			if per < 1 {
+				per = 1
+			}
+			u := mkH265Hdr(19, 0, 1)
+			units = [][]byte{append(u, nalBody(t, (65530+t.Intn(3000))*per)...)}
+		}
 		if burst && k == 0 {
 			units = units[:0]
 			for i, n := 0, 200+t.Intn(600); i < n; i++ {
